@@ -6,6 +6,6 @@ PROP = "C04"
 
 def run(rep, tier):
     return run_core(
-        rep, "C04", ['flat_s', 'chain_s', 'ctrl', 'xmod', 'nest', 'prov', 'val', 'consten'], ['flat', 'flat3_s', 'chain_m', 'ctrl', 'xmod_l', 'nest', 'val', 'prov', 'rel3', 'consten'], tier,
+        rep, "C04", ['flat_s', 'chain_s', 'ctrl', 'xmod', 'nest', 'prov', 'val', 'consten', 'plural'], ['flat', 'flat3_s', 'chain_m', 'ctrl', 'xmod_l', 'nest', 'val', 'prov', 'rel3', 'consten', 'plural'], tier,
         "every design x register state x input valuation: the observed Method.run equals the reference 'some call site is active' (caller runs, conditions hold, enable_call) in both directions, also through provide() aliases; never-called methods never run; nested bodies run only with their enclosing body; non-trivial = valuations with two or more enabled transactions",
         scheds=("eager", "rr"), floors={"designs_simulated": 500, "transitions": 100000, "nt_two_enabled": 10000})
